@@ -46,6 +46,14 @@ Definition r_f6 : list op :=
   ++ map (fun d => ODelegate d 100 (U - 1)) (map Z.of_nat (seq 1 18))
   ++ [ORoot].
 
+(* a deposit of 1 YOU on a validator holding 99.99 YOU of its own and a delegation of 50.49 YOU (stakes 99 + 50):
+   booked by deltas the total stake becomes 150; recomputed as floor(total token / unit) = floor(151.48) it would be
+   151 - that update is outside the callers' discipline (upd_ok) and breaks the decomposition *)
+Definition C : Z := U / 100.
+Definition dep_pre : list op := [OFund 1; OCreate 100 2 0 (9999 * C) 99; ODelegate 1 100 (5049 * C)].
+Definition dep_by_deltas : list op := dep_pre ++ [OUpdate 100 (mkU 2 0 (15148 * C) 150 (10099 * C) 100 0 0 0)].
+Definition dep_by_floor_of_total : list op := dep_pre ++ [OUpdate 100 (mkU 2 0 (15148 * C) 151 (10099 * C) 100 0 0 0)].
+
 Definition refutes (w : list op) : Prop :=
   safe (removelast w) = true /\ safe w = false /\
   exists s, run init w = Some s /\ inv_all s = false.
@@ -66,6 +74,8 @@ Lemma refuted_f5 : refutes w_f5. Proof. apply refutes_b_spec. vm_compute. reflex
 Lemma refuted_f7 : refutes w_f7. Proof. apply refutes_b_spec. vm_compute. reflexivity. Qed.
 Lemma refuted_f8 : refutes w_f8. Proof. apply refutes_b_spec. vm_compute. reflexivity. Qed.
 
+Lemma refuted_dep_by_floor : refutes dep_by_floor_of_total. Proof. apply refutes_b_spec. vm_compute. reflexivity. Qed.
+
 Definition holds_b (w : list op) : bool :=
   safe w && match run init w with Some s => inv_all s | None => false end.
 Lemma repaired_f2 : holds_b r_f2 = true. Proof. vm_compute. reflexivity. Qed.
@@ -81,6 +91,8 @@ Lemma prerepair_f9 : prerepair_refutes w_f9.
 Proof. vm_compute. reflexivity. Qed.
 Lemma f9_then_and_now : holds_b w_f9 = true /\ prerepair_refutes w_f9.
 Proof. split; [exact repaired_f9|exact prerepair_f9]. Qed.
+
+Lemma dep_by_deltas_holds : holds_b dep_by_deltas = true. Proof. vm_compute. reflexivity. Qed.
 
 Lemma inplace_holds : holds_b ex_inplace = true /\
   match run init ex_inplace with
